@@ -215,9 +215,11 @@ def gen_cases(ctx):
     # disabled statements: a program with a block SKIP in the middle
     for _ in range(200 if ctx.tier == 'quick' else 3000):
         n = rng.randint(3, 7)
-        stmts = [gendoc.Stmt(rng.choice(['assign', 'print', 'multi', 'compound', 'for', 'decodef', 'class']), 10 + i) for i in range(n)]
+        stmts = [gendoc.Stmt(rng.choice(['assign', 'print', 'multi', 'compound', 'for', 'decodef', 'class', 'inline_skip_triple_blank', 'inline_skip_bracket_blank']), 10 + i)
+                 for i in range(n)]
         a, b = sorted(rng.sample(range(n + 1), 2))
-        enabled = [not (a <= i < b) for i in range(n)]
+        # (statements that carry an inline +SKIP of their own, on their last line, are off wherever they stand)
+        enabled = [not (a <= i < b) and not stmts[i].kind.startswith('inline_skip') for i in range(n)]
         lines = []
         for i, s in enumerate(stmts):
             if i == a and a != b:
